@@ -173,4 +173,8 @@ def parseCanonDB (s : String) : Option (List (Nat × List (String × String))) :
       | _, _ => none) (some [])
 
 
+def afterPrefix (s : String) (p : String) : Option String :=
+  if s.startsWith p then some (s.drop p.length).toString else none
+
+
 end Tc.Driver
